@@ -54,7 +54,7 @@ func (l *liveEnv) bucket(nc *nats.Conn, name string, maxAge time.Duration) (nats
 	if err != nil {
 		return nil, nil, err
 	}
-	kv, err := js.CreateKeyValue(&nats.KeyValueConfig{Bucket: name, TTL: maxAge, Storage: nats.MemoryStorage, History: 1})
+	kv, err := js.CreateKeyValue(&nats.KeyValueConfig{Bucket: name, TTL: maxAge, Storage: nats.MemoryStorage, History: 64})
 	if err != nil {
 		return nil, nil, err
 	}
